@@ -3,6 +3,8 @@
 package checks
 
 import (
+	"time"
+
 	promParser "github.com/prometheus/prometheus/promql/parser"
 
 	"github.com/cloudflare/pint/internal/parser"
@@ -19,3 +21,13 @@ func VerifStripLabels(s *promParser.VectorSelector) promParser.VectorSelector { 
 func VerifIsDisabled(rule parser.Rule, s *promParser.VectorSelector) bool { return isDisabled(rule, s) }
 
 func VerifIsSnoozed(rule parser.Rule, s *promParser.VectorSelector) bool { return isSnoozed(rule, s) }
+
+// getMinAge(rule, selector): the duration and the number of "invalid comment" problems it produced
+func VerifMinAge(rule parser.Rule, s *promParser.VectorSelector) (time.Duration, int) {
+	d, p := SeriesCheck{}.getMinAge(rule, s)
+	return d, len(p)
+}
+
+func VerifLabelValueIgnored(settings *PromqlSeriesSettings, rule parser.Rule, s *promParser.VectorSelector, name string) bool {
+	return SeriesCheck{}.isLabelValueIgnored(settings, rule, s, name)
+}
